@@ -12,10 +12,10 @@ CLAIMED = {
  "C07": ("metamorphic (physical map layout, repetition) + SPEC order oracle", "4", "each path evaluated 3..10 times on 3..6 physically different but equal Go maps (insertion order, pre-sizing, insert-then-delete), interleaved with other evaluations; every sequence must equal SPEC's (byte-wise key order cross-checked against encoding/json); the order of user-function calls is compared across repetitions and copies; the sequence is also taken in accessor mode"),
  "C08": ("metamorphic relation over three retrievals (split composition)", "4", "every admissible split of every generated path: Retrieve(P.Q,d) equals the in-order concatenation of Retrieve($.Q,v) over Retrieve(P,d); union/multi decomposition and '..X' pre-order expansion checked at the split"),
  "C09": ("metamorphic Boolean-algebra laws over selection index sets + shared-filter scenario under the race detector", "4", "at every node of generated filter expressions (depth 3) over containers of 0..6 distinct members: and=intersection, or=union, parentheses neutral, !=complement, != vs ==, mirror laws for six operators, <=/>= = strict u equal; container order; plus one parsed filter shared by goroutines on containers with different verdict patterns under the race detector (TestC09_SharedFilter); sub-expressions also through config-less Retrieve, sibling atoms that differ by a significant blank"),
- "C10": ("SPEC differential + metamorphic (decode mode, operand order)", "4", "single-comparison filters over members of every JSON type: per-member agreement with SPEC, identical selection with and without UseNumber, identical selection after swapping operands and mirroring the operator"),
+ "C10": ("SPEC differential + metamorphic (decode mode, operand order) + shared-function scenario under the race detector", "4", "single-comparison filters over members of every JSON type: per-member agreement with SPEC, identical selection with and without UseNumber, identical selection after swapping operands and mirroring the operator; plus one parsed comparison shared by goroutines on documents with other operand values under the race detector (TestC10_SharedCompare)"),
  "C11": ("exhaustive small scope + random boundary search against a CPython-pinned slice model", "4", "all start/end/step in {omitted} U [-7..7] x lengths 0..6 enumerated completely, plus the boundary-magnitude cross product and random int64 triples up to length 40, compared with Python slice semantics"),
  "C12": ("relational (mode parity) over generated cases with recording functions", "4", "each generated (path, document) evaluated with and without accessor mode: same length, Get() deep-equals the plain value, same error, identical function call logs, never an Accessor inside a function argument"),
- "C13": ("SPEC location model + stateful history against a shadow document", "4", "for every accessor of every generated result: Set on a fresh copy, then document diff against the original with exactly SPEC's predicted location replaced, Get liveness before/after; drawn Set/direct-update histories checked against a shadow copy; Set == nil exactly for non-locations"),
+ "C13": ("SPEC location model + stateful history against a shadow document + shared-function scenario under the race detector", "4", "for every accessor of every generated result: Set on a fresh copy, then document diff against the original with exactly SPEC's predicted location replaced, Get liveness before/after; drawn Set/direct-update histories checked against a shadow copy; Set == nil exactly for non-locations; plus one accessor-mode subscript path shared by goroutines on arrays of different length, Get/Set checked against SPEC's indexes under the race detector (TestC13_SharedAccessors)"),
  "C14": ("SPEC call-log differential with recording functions", "4", "per function occurrence, the recorded arguments (count, order, values; list vs array-elements for aggregates) are compared with SPEC's expected call log; results must be the chained return values; ErrorFunctionFailed when only functions failed"),
  "C15": ("SPEC failure-candidate differential", "4", "for every generated failing (path, document): the reported error (Go type, path text, expected, found) must match a failure SPEC finds at the deepest failing step, non-type failures preferred; exact for single-valued paths"),
  "C18": ("metamorphic (spelling variants) guarded by PEGI", "4", "each generated AST rendered in 2..6 random spellings of the kinds the grammar declares insignificant (each verified derivable by PEGI); all spellings must return deep-equal values or errors of the same type for the same step"),
